@@ -136,8 +136,8 @@ func checkHistoryC(w *core.Worker, p *ParserDef, cfg0 Cfg, ops []histOp, cfgs []
 		ou, on := 0, 0
 		defin := false
 		for _, cut := range op.cuts {
-			nu, eu, panu, stk := safeCall(U, op.in[:cut], ou)
-			nn, en, pann, _ := safeCall(N, op.in[:cut], on)
+			nu, eu, panu, stk := safeCall(U, s.isoPrefix(op.in[:cut], cut), ou)
+			nn, en, pann, _ := safeCall(N, s.exactPrefix(op.in[:cut]), on)
 			w.Eval(1)
 			describe := func() map[string]any {
 				d := map[string]any{"parser": p.Name, "hdr_cap": cfg.HdrCap, "contact_cap": cfg.ContactCap, "param_cap": cfg.ParamCap,
